@@ -223,6 +223,15 @@ func runC16(c C16Case) (res c16result) {
 				return fmt.Sprintf("connection %d ended by %s and no still-open stalled connection holds up a delivery from it, yet its teardown has not finished after %v and every library goroutine is parked: %v", i, cause, wire.DefaultWait, census.Summary(census.Lib()))
 			}
 		}
+		// something is in motion: slow machine, or a busy loop? (decided by processor time consumed, not by the clock)
+		id := conns[i].ID()
+		spin, cpu := census.Spinning(3*time.Second, 45*time.Second, func() bool { return fix.TornDown(id) })
+		if fix.TornDown(id) {
+			return ""
+		}
+		if len(spin) > 0 {
+			return fmt.Sprintf("connection %d ended by %s and no still-open stalled connection holds up a delivery from it, yet its teardown has not finished: since the deadline of %v the process has consumed %v of processor time while goroutine(s) of the library stayed in motion inside the same function in every census (a busy loop): %v", i, cause, wire.DefaultWait, cpu.Round(time.Millisecond), census.Summary(spin))
+		}
 		res.Incon = fmt.Sprintf("teardown of connection %d not seen within %v while goroutines were still running", i, wire.DefaultWait)
 		return ""
 	}
